@@ -91,10 +91,18 @@ VAR_MENU = {
 }
 
 
+# variables that hold None (their declared default) when a cell divides; their
+# dividers do not look at the value (added through a stream of their own)
+NONE_VARS = {
+    'cn': {'default': None, 'divider': {'divider': 'set_value', 'config': {'value': 42}}, 'updater': 'set'},
+    'zn': {'default': None, 'divider': 'zero', 'updater': 'set'},
+}
+
+
 def _state_for(r, cellvars, p=50, extreme=False):
     st = {}
     for v, a in cellvars.items():
-        if v in ('t', 'd', 'sd', 'lst', 'grp'):
+        if v in ('t', 'd', 'sd', 'lst', 'grp') or v in NONE_VARS:
             continue
         if r.chance(p):
             if v == 'q':
@@ -126,6 +134,10 @@ def gen_case(seed):
     if swarm['steps']:
         names.append('t')
     cellvars = {v: copy.deepcopy(VAR_MENU[v]) for v in names}
+    rn = Rng(derive(seed, 'none_vars'))
+    if rn.chance(20):
+        for v in rn.sample(sorted(NONE_VARS), rn.rint(1, 2)):
+            cellvars[v] = copy.deepcopy(NONE_VARS[v])
     tsmax = r.pick([4, 8, 16])
 
     def proc_spec(name):
@@ -208,6 +220,8 @@ def gen_case(seed):
         menu += [['write', rr.below(4), 'n', rr.rint(1, 9)]]
         if swarm['combo'] and swarm['add']:
             menu += [['add_write', _state_for(rr, cellvars), rr.below(4), rr.rint(1, 9)]]
+        if swarm['tokens'] and swarm['illegal']:
+            menu += [['add_leaf_existing', rr.below(4), rr.pick([0, 3])]]
         if swarm['tokens']:
             menu += [['add_leaf', rr.pick([0, 0, False, 5, 12])]] * 2 + \
                     [['del_leaf', rr.below(4)], ['write_leaf', rr.below(4), rr.rint(1, 9)]]
@@ -1328,6 +1342,10 @@ def _check(case, run, stats):
                             # emitted in the variable's units (those of its declared default)
                             if _emit_equal(rv.get(var), mv_, _dec(cellvars[var]['default']).units):
                                 continue
+                        if mv_ is None and rv.get(var, '<absent>') in ('<absent>', None):
+                            # emit_data() documents None as "nothing to emit": a variable
+                            # that holds None has no entry in the row
+                            continue
                         if not values_equal(rv.get(var, '<absent>'), mv_):
                             return [V('C12', 'C12.row-content', 'value',
                                       'row at %r: %s/%s/%s = %r, state %r' % (
@@ -1343,6 +1361,9 @@ def _check(case, run, stats):
                                     and 'cannot add' in ev['exc']:
                                 expect_exception = nu['seq']
                             seen_keys.add(added['key'])
+                        for added in ((nu['update'].get('tokens') or {}).get('_add') or []):
+                            if m.tokens is not None and added['key'] in m.tokens and 'cannot add' in ev['exc']:
+                                expect_exception = nu['seq']
                 if expect_exception is not None:
                     probe('illegal-add-rejected')
                     return []
